@@ -135,10 +135,9 @@ theorem copyRef_pres_step (fuel : Nat) (ih : CpOK (copyRef fuel)) (h : Heap) (k 
       · exact alloc_pres h _
       · exact alloc_pres h _
       · exact Pres.refl h
-      · rename_i cv cfr orb ofr hc
+      · rename_i cb cfr orb ofr hc
         split
-        · exact Pres.refl h
-        · rename_i o ho
+        · rename_i o cv ho hcb
           have p := copySVWith_pres ih h orb
           split
           · rename_i h1 e he; rw [he] at p; exact p
@@ -148,7 +147,8 @@ theorem copyRef_pres_step (fuel : Nat) (ih : CpOK (copyRef fuel)) (h : Heap) (k 
             · exact p
             · rename_i s' hs'
               obtain ⟨hb, hd, _, _, _⟩ := copySVWith_getSV ih h h1 orb o' s' he hs'
-              exact ((p.wr hb _).wr hd _).alloc _
+              exact (((p.wr hb _).wr hd _).alloc _).alloc _
+        · exact Pres.refl h
       · have p := copySVWith_pres ih h a
         split
         · rename_i h1 e he; rw [he] at p; exact p
@@ -171,10 +171,9 @@ theorem copyRef_fresh_step (fuel : Nat) (ih : CpOK (copyRef fuel)) (h : Heap) (k
       · simp [alloc] at hr; subst hr; injection hx with hx; left; omega
       · rename_i t hc
         simp at hr; subst hr; injection hx with hx; subst hx; right; exact ⟨t, hc⟩
-      · rename_i cv cfr orb ofr hc
+      · rename_i cb cfr orb ofr hc
         split at hr
-        · simp at hr
-        · rename_i o ho
+        · rename_i o cv ho hcb
           have p := copySVWith_pres ih h orb
           split at hr
           · simp at hr
@@ -186,6 +185,7 @@ theorem copyRef_fresh_step (fuel : Nat) (ih : CpOK (copyRef fuel)) (h : Heap) (k
               subst hr; injection hx with hx; left
               have hp : h.length ≤ h1.length := p.1
               omega
+        · simp at hr
       · split at hr
         · simp at hr
         · rename_i h1 n he
